@@ -7,7 +7,10 @@ from ..battery import call, _Raised
 from ..observe import observe
 from .c08 import gen_hypergraph
 
-TIERS = {"quick": 800, "thorough": 12000}
+N_RANDOM = {"quick": 800, "thorough": 12000}
+N_EXH = 2 ** 15 - 1  # every non-empty hypergraph on 4 fixed nodes, thorough tier only
+TIERS = {"quick": N_RANDOM["quick"], "thorough": N_RANDOM["thorough"] + N_EXH}
+EXHAUSTIVE = {"quick": False, "thorough": True}
 WATCHDOG_S = {"quick": 900, "thorough": 7200}
 RULE = ("case kinds: 3 of 4 a random Hypergraph (1-8 nodes, sizes 1-5, nested hyperedges, isolated nodes, all label "
         "universes) checked for bipartite, clique (both keep_isolated), line graph (intersection s in 1..4, jaccard s in "
@@ -28,6 +31,16 @@ def dist(kind, a, b):
 
 
 def run_case(ctx, rng, idx):
+    if idx >= N_RANDOM[ctx.tier]:
+        import hypergraphx as hgx
+
+        mask = idx - N_RANDOM[ctx.tier] + 1
+        nodes = ["E", "a", "b", "n"]
+        poss = [c for r in range(1, 5) for c in itertools.combinations(nodes, r)]
+        h = hgx.Hypergraph([e for i, e in enumerate(poss) if mask >> i & 1])
+        ctx.event("exhaustive-4-node-hypergraph")
+        undirected_eval(ctx, rng, idx, h)
+        return
     if idx % 4 == 3:
         return directed_case(ctx, rng, idx)
     from hypergraphx.representations import projections as pr
